@@ -12,6 +12,10 @@ CONSTANTS
     MaxQ = 2
     InsertFirst = FALSE
     WithHold = TRUE
+    MaxLen = 9
+    BigOn = 1
+    ErrReadNeedsReply = TRUE
+    WithFault = TRUE
     EmptyOn = 0
     Hist = FALSE
 INVARIANT Inv
